@@ -226,10 +226,11 @@ def slices(prop, tier, seed):
                                      slacks=((0, 0), (50, 50), (100, 100)))))
         S.append(("S-plan-ms", W.s_plan_ms(enf if th else {k: enf[k] for k in pp_small},
                                            seed)))
-        # the batching mode of TetriSched-CPLEX (TetriSched-Gurobi rejects the flag; the
-        # ILP policy's batching mode is not explored, see DESIGN.md 10.6)
+        # the batching mode of TetriSched-CPLEX and of the ILP policy (TetriSched-Gurobi
+        # rejects the flag); the ILP one carries an open finding, see DESIGN.md 10.5
         S.append(("S-plan-batch", W.s_plan_batch(
-            {k: v for k, v in enf.items() if k.startswith("TSC")}, seed,
+            {k: v for k, v in enf.items() if k.startswith("TSC")
+             or k == "ILP" or (th and k in ("ILP+la", "ILP+drop"))}, seed,
             k_max=3 if th else 2)))
         S.append(("S-cw", W.s_cw(seed, k_max=3 if th else 2, full=th)))
     elif prop == "C19":
